@@ -1,5 +1,5 @@
 From Coq Require Import String.
-From V Require Import Common.Base C14.Compat C14.Spec C14.LowerGraph C14.CompatProofs C14.TableProofs.
+From V Require Import Common.Base C14.Compat C14.Spec C14.LowerGraph C14.CompatProofs C14.TableProofs C14.Constructs.
 (* non-vacuity / sanity: concrete values meeting the hypotheses of the theorems *)
 
 (* es_monotone: optional chaining is unsupported for ES2019 and supported for ES2020 *)
@@ -54,3 +54,13 @@ Proof. vm_compute. split; reflexivity. Qed.
 (* rejected features make the compile fail *)
 Example tla_rejected : compile (fset_of [FTopLevelAwait]) [FTopLevelAwait] = Error.
 Proof. vm_compute. reflexivity. Qed.
+
+(* jsx_spread_lowered: hypotheses satisfiable for ES2017, and the result is non-trivial *)
+Example jsx_spread_es2017 :
+  let U := fset_of (unsupported_list (es_constraint 2017)) in
+  base_ok U = true /\ U FObjectRestSpread = true /\
+  match compile_with U [CJsxElement; CJsxSpread; CKeepNames] [] with
+  | Ok out => negb (existsb (feature_eqb FObjectRestSpread) out) && existsb (feature_eqb FArrow) out
+  | Error => false
+  end = true.
+Proof. vm_compute. repeat split; reflexivity. Qed.
